@@ -864,6 +864,120 @@ static void run_r565_case(const char *line)
   tj3Free(k->jpeg);
 }
 
+/* ------------------------------------------------------------ every post-processing configuration */
+/* libjpeg API decode with quantize_colors (1-pass / 2-pass, dither none/ordered/FS) or without, any
+   out_color_space incl. JCS_RGB565, merged or separate upsampling, scale, optional jpeg_crop_scanline and
+   jpeg_skip_scanlines; max_lines rows per jpeg_read_scanlines call.  Every row buffer has EXACTLY the
+   documented row size and ends at a guard page; the row-pointer ARRAY has min(max_lines, rows remaining)
+   entries and ends at a guard page too, so a call that delivers more than output_height - output_scanline
+   rows faults on it. */
+static void run_pp_case(const char *line)
+{
+  kase K, *k = &K;
+  char src[8];
+  memset(k, 0, sizeof *k);
+  gets_(line, "src", src, sizeof src);
+  strcpy(k->kind, "pk"); strcpy(k->api, "dec");
+  k->bits = 8; k->w = geti(line, "w", 1); k->h = geti(line, "h", 1); k->ss = geti(line, "ss", 0);
+  k->fast = geti(line, "fast", 0); k->num = geti(line, "num", 1); k->den = geti(line, "den", 1);
+  int maxl = geti(line, "max", 2), dither = geti(line, "dither", 0), quant = geti(line, "quant", 0);
+  int cs = geti(line, "cs", 0), cx = geti(line, "cx", 0), cw = geti(line, "cw", 0), sk = geti(line, "sk", 0);
+  int ncol = geti(line, "ncol", 64);
+  if (k->ss < 0 || k->ss >= TJ_NUMSAMP || k->w < 1 || k->h < 1 || maxl < 1 || maxl > 16 || k->den < 1 || quant < 0 || quant > 2) { printf("?\n"); return; }
+  k->pf = TJPF_RGB;
+  if (!strcmp(src, "gray")) k->ss = TJSAMP_GRAY;
+  if (!strcmp(src, "rgb")) k->rgbcs = 1;
+  if (make_jpeg(k)) { printf("err %s\n", k->err); return; }
+  static const J_COLOR_SPACE css[4] = { JCS_RGB, JCS_RGB565, JCS_EXT_RGBX, JCS_GRAYSCALE };
+  gbuf g[16], ga; int ng = 0;
+  uint8_t *mask = NULL;
+  volatile size_t rowbytes = 0; volatile long H = 0;
+  volatile long total = 0, over_at = -1, over_ret = 0, over_max = 0;
+  volatile int canary_bad = 0, outcome = 0, fb = -1; volatile long coff = 0, foff = 0;
+  memset(&ga, 0, sizeof ga);
+  for (int pass = 0; pass < 2 && !outcome && over_at < 0; pass++) {
+    struct jpeg_decompress_struct cinfo;
+    struct jpeg_error_mgr jerr;
+    volatile int created = 0;
+    int rc;
+    total = 0;
+    in_call = 1;
+    rc = sigsetjmp(jb, 1);
+    if (rc == 0) {
+      arm(8000);
+      cinfo.err = jpeg_std_error(&jerr);
+      jerr.error_exit = rs_error_exit; jerr.output_message = rs_output_message;
+      jpeg_create_decompress(&cinfo); created = 1;
+      jpeg_mem_src(&cinfo, k->jpeg, (unsigned long)k->jpegSize);
+      jpeg_read_header(&cinfo, TRUE);
+      cinfo.scale_num = k->num; cinfo.scale_denom = k->den;
+      cinfo.do_fancy_upsampling = !k->fast;
+      cinfo.out_color_space = css[cs & 3];
+      cinfo.dither_mode = dither == 2 ? JDITHER_FS : (dither == 1 ? JDITHER_ORDERED : JDITHER_NONE);
+      if (quant) { cinfo.quantize_colors = TRUE; cinfo.two_pass_quantize = (quant == 2); cinfo.desired_number_of_colors = ncol; }
+      jpeg_start_decompress(&cinfo);
+      if (cw > 0) { JDIMENSION xo = (JDIMENSION)cx, wd = (JDIMENSION)cw; jpeg_crop_scanline(&cinfo, &xo, &wd); }
+      size_t bpp = quant ? 1 : (cinfo.out_color_space == JCS_RGB565 ? 2 : (size_t)cinfo.out_color_components);
+      rowbytes = (size_t)cinfo.output_width * bpp; H = cinfo.output_height;
+      if (pass == 0) {
+        for (int i = 0; i < maxl; i++) { if (galloc(&g[i], rowbytes, 1)) siglongjmp(jb, 2); ng++; }
+        if (galloc(&ga, sizeof(JSAMPROW) * (size_t)maxl, 1)) siglongjmp(jb, 2);
+        mask = calloc((size_t)H + 1, rowbytes + 1);
+      }
+      if (sk > 0 && sk < H) jpeg_skip_scanlines(&cinfo, (JDIMENSION)sk);
+      while (cinfo.output_scanline < cinfo.output_height && over_at < 0) {
+        JDIMENSION at = cinfo.output_scanline, n;
+        long remaining = (long)cinfo.output_height - (long)at;
+        int nvalid = remaining < maxl ? (int)remaining : maxl;
+        JSAMPROW *arr = (JSAMPROW *)(ga.buf + ga.size) - nvalid;       /* array ends at the guard page */
+        gslack_fill(&ga);
+        for (int i = 0; i < maxl; i++) { memset(g[i].buf, FILL[pass], rowbytes); gslack_fill(&g[i]); }
+        memset(ga.buf, CANARY, ga.size);
+        for (int i = 0; i < nvalid; i++) arr[i] = g[i].buf;
+        n = jpeg_read_scanlines(&cinfo, arr, (JDIMENSION)maxl);
+        total += n;
+        if ((long)n > nvalid) { over_at = at; over_ret = n; over_max = nvalid; break; }
+        for (int i = 0; i < maxl; i++) {
+          long o;
+          if (!canary_bad && gslack_bad(&g[i], &o)) { canary_bad = 1; coff = o; }
+          if (i < (int)n)
+            for (size_t j = 0; j < rowbytes; j++) if (g[i].buf[j] != FILL[pass]) mask[(at + i) * rowbytes + j] = 1;
+        }
+        if (n == 0) break;
+      }
+      if (over_at < 0) jpeg_finish_decompress(&cinfo);
+    }
+    in_call = 0; arm(0);
+    if (rc == 1) {
+      outcome = 3;
+      if (ga.map && fault_addr >= (uintptr_t)ga.map && fault_addr < (uintptr_t)ga.map + ga.maplen) { fb = 99; foff = (long)(fault_addr - (uintptr_t)(ga.buf + ga.size)); }
+      for (int i = 0; i < ng; i++)
+        if (fault_addr >= (uintptr_t)g[i].map && fault_addr < (uintptr_t)g[i].map + g[i].maplen) { fb = i; foff = (long)(fault_addr - (uintptr_t)g[i].buf); }
+    } else if (rc == 2) outcome = 1;
+    else if (rc == 3) outcome = 4;
+    if (created && rc != 1 && rc != 3) jpeg_destroy_decompress(&cinfo);
+  }
+  if (outcome == 3) {
+    if (fb == 99) printf("segv buf=99 off=%ld pass=0 (row-pointer array: entry %ld past the rows that remain)\n", (long)foff, (long)foff / 8);
+    else printf("segv buf=%d off=%ld pass=0\n", (int)fb, (long)foff);
+  } else if (outcome == 4) printf("hang\n");
+  else if (outcome == 1) printf("err jpeg\n");
+  else if (over_at >= 0) printf("over at=%ld max=%ld ret=%ld row=%ld\n", (long)over_at, (long)over_max, (long)over_ret, (long)over_max);
+  else {
+    size_t miss = 0; long first = (sk > 0 && sk < H) ? sk : 0;
+    for (size_t j = (size_t)first * rowbytes; j < (size_t)H * rowbytes; j++) if (!mask[j]) miss++;
+    printf("ok total=%ld rowbytes=%zu ", (long)total, (size_t)rowbytes);
+    /* colormapped output may legitimately equal a fill byte in both passes only if index 0x5A and 0xA5 coincide: never */
+    if (miss) printf("partial%zu", miss); else printf("full");
+    printf(" ; canary=");
+    if (canary_bad) printf("bad:b0@%ld", (long)coff); else printf("ok");
+    printf(" det=same\n");
+  }
+  free(mask);
+  gfree_all();
+  tj3Free(k->jpeg);
+}
+
 /* ------------------------------------------------------------ SIMD kernels directly */
 #ifdef WITH_SIMD
 typedef unsigned char **SARR;
@@ -1056,6 +1170,7 @@ int main(void)
     else if (!strncmp(line, "rs ", 3)) run_rs_case(line);
     else if (!strncmp(line, "kv ", 3)) run_kv_case(line);
     else if (!strncmp(line, "r565 ", 5)) run_r565_case(line);
+    else if (!strncmp(line, "pp ", 3)) run_pp_case(line);
     else if (!strncmp(line, "big ", 4)) run_big_case(line);
     else if (!strncmp(line, "simd", 4)) {
 #ifdef WITH_SIMD
